@@ -101,6 +101,7 @@ struct Runner : Hooks {
 
   // helpers
   void check_child_streams(size_t hi);
+  char *str_slot[2] = { nullptr, nullptr };  // the caller's string-sink variables (stdout, stderr), kept across drain/run ops
   Proc *proc_of(const HState &h) { return h.uid >= 0 ? K->procs[(size_t) h.uid] : nullptr; }
   int expected_status(Proc *p) { return p->death_by_sig ? 128 + p->death_sig : p->death_code; }
   bool child_dead(Proc *p) { return p && p->st != Proc::RUNNING; }
